@@ -151,6 +151,17 @@ def prepare_xrepo():
 
 # ---------------------------------------------------------------- kani
 
+def _suffix():
+    # never share cargo target directories between /repo and a scratch worktree (VERIF_REPO):
+    # cargo's unit hashes are path-independent, so artifacts of one tree are taken as fresh for the other
+    return "" if REPO == "/repo" else "-" + hashlib.sha1(REPO.encode()).hexdigest()[:8]
+
+
+def target_dir(part, playback=False):
+    base = ("playback" if playback else "kani") + ("-x" if part.get("transform") else "")
+    return os.path.join(BUILD, base + _suffix())
+
+
 def repo_root(part):
     if part.get("transform"):
         return prepare_xrepo()[0]
@@ -220,7 +231,7 @@ def run_kani(pid, part, tier, jobs):
     lpath = os.path.join(BUILD, "out", tag + ".log")
     if os.path.exists(jpath):
         os.remove(jpath)
-    cmd = ["cargo", "kani", "--target-dir", os.path.join(BUILD, "kani-x" if part.get("transform") else "kani")] + KANI_FLAGS
+    cmd = ["cargo", "kani", "--target-dir", target_dir(part)] + KANI_FLAGS
     if part.get("c_ffi"):
         cmd += ["-Z", "c-ffi", "--c-lib", os.path.join(KANI_DIR, "clock.c")]
     for f in part.get("features", []) + (["verif-xrepo"] if part.get("transform") else []):
@@ -347,7 +358,7 @@ def native_playback(part, harness_file, test_text, test_name):
         cmd += ["--features", f]
     cmd += ["--", test_name, "--exact"] if False else ["--", test_name]
     rc, text, dt = sh(cmd, cwd=os.path.join(repo_root(part), part["crate_dir"]),
-                      env={"VERIF_REPLAY_DIR": d, "CARGO_TARGET_DIR": os.path.join(BUILD, "playback-x" if part.get("transform") else "playback")},
+                      env={"VERIF_REPLAY_DIR": d, "CARGO_TARGET_DIR": target_dir(part, playback=True)},
                       timeout=1800)
     shutil.rmtree(d, ignore_errors=True)
     m = re.search(r"test result: (\w+)\. (\d+) passed; (\d+) failed", text)
@@ -411,7 +422,7 @@ def build_replay(pid, part, name, hid, hfile, res, reason):
     os.makedirs(REPLAYS, exist_ok=True)
     rpath = os.path.join(REPLAYS, "%s-%s.rs" % (pid, name))
     crate_key = part.get("crate_key", part["crate_dir"].replace("-", "_"))
-    cmd = ["cargo", "kani", "--target-dir", os.path.join(BUILD, "kani-x" if part.get("transform") else "kani")] + KANI_FLAGS
+    cmd = ["cargo", "kani", "--target-dir", target_dir(part)] + KANI_FLAGS
     if part.get("c_ffi"):
         cmd += ["-Z", "c-ffi", "--c-lib", os.path.join(KANI_DIR, "clock.c")]
     for f in part.get("features", []) + (["verif-xrepo"] if part.get("transform") else []):
